@@ -302,7 +302,7 @@ class Translator:
         pre = self.flush()
         if isref:
             # local reference: alias of an lvalue
-            if init is None or init.k not in ('var', 'field', 'index'):
+            if init is None or not (init.k in ('var', 'field', 'index') or (init.k == 'call' and getattr(init, 'ret_ref', False))):
                 raise Unsupported('local reference to non-lvalue')
             self.env[c['id']] = ('@alias', init)
             self.count('R17.alias')
